@@ -250,7 +250,7 @@ func c12concBody() {
 
 func init() {
 	sched.Register(&sched.Scenario{Name: "C12/concurrent", Setup: func(tier string) (sched.Config, func()) {
-		b := sched.Bounds{P: 2}
+		b := sched.Bounds{P: 2, F: -1}
 		if tier == "thorough" {
 			b.P = 3
 		}
